@@ -289,6 +289,12 @@ class CFG:
         self.pred = defaultdict(list)
         for b in d["blocks"]:
             ss = [s for s in b["succ"]]
+            # `if constexpr`: the condition is a ConstantExpr; the discarded branch is not a path
+            c = func.nodes.get(b.get("cond", -1)) if b.get("cond") is not None else None
+            t = func.nodes.get(b.get("term", -1)) if b.get("term") is not None else None
+            if c is not None and t is not None and t["k"] == "IfStmt" and c["k"] == "ConstantExpr" \
+                    and len(ss) == 2 and cv(c) is not None:
+                ss[1 if cv(c) else 0] = None
             self.succ[b["id"]] = ss
             for s in ss:
                 if s is not None:
